@@ -51,7 +51,8 @@ class Gen:
     def __init__(self, rng, cmp, vmax):
         self.rng, self.cmp, self.vmax = rng, cmp, vmax
         self.serial = 0
-        self.lines = ["heap cmp=" + cmp]
+        # both configurations of the optional callbacks (onAfterInsert / onBeforeRemove): registered (default) / none (ev=0)
+        self.lines = ["heap cmp=" + cmp + (" ev=0" if rng.chance(1, 3) else "")]
         self.live = []      # handles believed live (addressable)
         self.next = 0
 
@@ -361,8 +362,9 @@ def parse_dump(s):
 def oracle(script, out):
     """abstract-map spec evaluated on the implementation's output lines.
     returns (None | (step, what), internal_disorder_step | None)."""
-    cmp = script[0].split("=")[1]
+    cmp = script[0].split()[1].split("=")[1]
     lt = lt_of(cmp)
+    noev = "ev=0" in script[0].split()      # no callback registered on the heap: every ev= list must be empty
     spec = {}
     nxt = 0
     disorder = None
@@ -380,7 +382,7 @@ def oracle(script, out):
         exp = None
         if op == "ins":
             spec[nxt] = int(t[1])
-            exp = "h=%d ev=I%d" % (nxt, nxt)
+            exp = "h=%d ev=" % nxt if noev else "h=%d ev=I%d" % (nxt, nxt)
             nxt += 1
         elif op == "insl":
             ks = list(map(int, t[2:]))
@@ -389,12 +391,12 @@ def oracle(script, out):
                 spec[nxt] = k
                 evs.append("I%d" % nxt)
                 nxt += 1
-            exp = "ok ev=" + ",".join(evs)
+            exp = "ok ev=" if noev else "ok ev=" + ",".join(evs)
         elif op == "rm":
             h = int(t[1])
             if h in spec:
                 del spec[h]
-                exp = "ok ev=R%d" % h
+                exp = "ok ev=" if noev else "ok ev=R%d" % h
             else:
                 exp = "dead"
         elif op == "set":
@@ -489,7 +491,8 @@ def run_script(ck, hbin, script):
 def classify(ck, script, impl):
     """input distribution (ck.count): which slot a removal hit, which way an update moved its element, dead handles, sort on a
     loaded heap, container sizes of the bulk operations - read off the implementation's own dumps."""
-    ck.count("cmp:" + script[0].split("=")[1])
+    ck.count("cmp:" + script[0].split()[1].split("=")[1])
+    ck.count("heap-callbacks:" + ("none-registered" if "ev=0" in script[0].split() else "registered"))
     prev = []
     for ln, o in zip(script[1:], impl):
         res, _, dump = o.partition(" | ")
@@ -559,7 +562,7 @@ def judge(ck, hbin, script, tag, pre=None):
         # than its parent).  Look for a continuation whose pops come out of order: drain right there,
         # then drain after removing random subsets of the other elements.
         n, arr, _ps = parse_dump(impl[disorder].partition(" | ")[2])
-        lt = lt_of(script[0].split("=")[1])
+        lt = lt_of(script[0].split()[1].split("=")[1])
         keep = set()
         for j in range(1, n):
             if lt(arr[j][1], arr[(j - 1) // 2][1]):
@@ -713,9 +716,19 @@ def fq_expected(queries, ck):
 
 
 def hu_dump_oracle(d):
-    """the property's clauses on ONE dumped heap (implementation side only).  returns None | (class, text)."""
+    """the property's clauses on ONE dumped heap (implementation side only).  returns None | (class, text).
+    d["dirty"]: the script changed keys in place and has not yet asked for update/rebuild - the order clauses are not owed."""
     ranks = [r for r, _, _ in d["slots"]]
     n = d["n"]
+    if d.get("dirty"):
+        for i, (_, p, _) in enumerate(d["slots"]):
+            if p != i:
+                return ("position", "heap %s: the element in slot %d carries position %d" % (d["name"], i, p))
+        if n != len(ranks) or (d.get("live", "-") != "-" and int(d["live"]) != n) or d.get("hk") == "0":
+            return ("size-vs-live", "heap %s (keys changed in place, rebuild pending): size / live count / handles are off" % d["name"])
+        if d["drain"] is not None and sorted(d["drain"]) != sorted(ranks):
+            return ("drain-not-permutation", "heap %s: popping everything does not yield exactly the contents" % d["name"])
+        return None
     if n != len(ranks):
         return ("size", "heap %s reports size %d but its array has %d slots" % (d["name"], n, len(ranks)))
     if d.get("swo") == "0":
@@ -776,6 +789,10 @@ def hu_oracle(script, out, extra=None):
     live = set()               # rq / fq: live edges "s>t"
     prev = None                # previous parsed heaps (by name)
     prevfq = None
+    # gridb without a registered cell-update callback (cb=0): the order reads what the user wrote, so `poke` IS an in-place key
+    # change; until the user asks for it (update(cell) of the only stale cell, or updateAll()) the heaps owe no order
+    nocb = user == "gridb" and "cb=0" in script[0].split()
+    dirty = set()
     for i, ln in enumerate(ops):
         o = out[i]
         if o.startswith("bad-op") or o.startswith("exception"):
@@ -783,6 +800,17 @@ def hu_oracle(script, out, extra=None):
         res, heaps, fq = hu_parse_line(o)
         t = ln.split()
         op = t[0]
+        if nocb:
+            gdim = int(script[0].split()[1].split("=")[1])
+            gc = ",".join(t[1:1 + gdim])
+            if op == "poke" and res == "ok":
+                dirty.add(gc)
+            elif op == "upd" and res == "ok":
+                dirty = set() if dirty <= {gc} else dirty | {gc}
+            elif op in ("updall", "clear"):
+                dirty = set()
+            for d in heaps:
+                d["dirty"] = bool(dirty)
         for d in heaps:
             dumps.append((i, d))
             f = hu_dump_oracle(d)
@@ -801,7 +829,7 @@ def hu_oracle(script, out, extra=None):
             ids = [x for d in heaps for _, _, x in d["slots"]]
             if sorted(ids) != sorted(present):
                 return (i, "membership", "the two heaps together do not hold exactly the present cells", None), dumps
-            if op == "top" and (byname["int"]["n"] or byname["ext"]["n"]):
+            if op == "top" and not dirty and (byname["int"]["n"] or byname["ext"]["n"]):
                 m = re.match(r"ti=(\S+) te=(\S+)", res)
                 for which, got in (("int", m.group(1)), ("ext", m.group(2))):
                     d = byname[which] if byname[which]["n"] else byname["ext" if which == "int" else "int"]
@@ -1002,7 +1030,7 @@ def hu_tie(dumps, model):
             if mp != d["drain"]:
                 dis = (k, "pop order of heap %s: the implementation's copy pops %s, the model's pop loop %s" %
                        (d["name"], d["drain"][:12], mp[:12]))
-        if a.get("ord") == "0" and latent is None:
+        if a.get("ord") == "0" and latent is None and not d.get("dirty"):
             latent = (k, [int(x) for x in a["bad"].split(",")] if a.get("bad", "-") != "-" else [])
     return dis, latent
 
@@ -1061,6 +1089,16 @@ def hu_judge(ck, hbin, script, tag, pre=None):
             if user == "fq" and ln.startswith(("pop ", "peek ")):
                 ck.count("hu:fq:front-with-factor:" + ln.split()[1])
     ck.count("hu:dumps-inside-solve (validity-checker callback)", sum(1 for _, d in dumps if d.get("cb")))
+    if user == "gridb":
+        ck.count("hu:gridb:cell-update-callback:" + ("none-registered" if "cb=0" in script[0].split() else "registered"))
+        pend = 0
+        for ln in script[1:]:
+            w = ln.split()[0]
+            if w == "poke":
+                pend += 1
+            elif w == "updall":
+                ck.count("hu:gridb:updateAll-after-%s-in-place-writes" % ("0" if pend == 0 else "1" if pend == 1 else "2+"))
+                pend = 0
     if user == "rq":
         ck.count("hu:rq:ops-in-lock-step-with-drv_revqueue", len(script) - 1)
     if user == "planner" and "cb=0" not in script[0]:
@@ -1145,7 +1183,10 @@ def hu_gen_gridb(rng, nops, dense=False):
     bounds = "none"
     if rng.chance(1, 2):
         bounds = ",".join(["0"] * dim) + ":" + ",".join([str(side - 1)] * dim)
-    lines = ["gridb dim=%d limit=%s bounds=%s" % (dim, limit, bounds)]
+    # both configurations of the optional cell-update callback: cb=1 KPIECE-like (key written by the callback), cb=0 none registered
+    # (the order reads what the user wrote; tests/datastructures/gridb.cpp uses GridB this way)
+    cb = 0 if rng.chance(2, 5) else 1
+    lines = ["gridb dim=%d limit=%s bounds=%s cb=%d" % (dim, limit, bounds, cb)]
     smax = rng.choice([4, 8, 8, 40])
 
     def coord():
@@ -1166,8 +1207,19 @@ def hu_gen_gridb(rng, nops, dense=False):
             lines.append("rm " + coord())
         elif r < 80:
             lines.append("upd %s %s" % (coord(), data()))
-        elif r < 85:
+        elif r < 83:
             lines.append("poke %s %s" % (coord(), data()))
+        elif r < 86:
+            # several keys written in place, then ONE rebuild request: updateAll() ...
+            for _ in range(rng.range(2, 6)):
+                lines.append("poke %s %s" % (coord(), data()))
+            lines.append("updall")
+            if rng.chance(1, 2):
+                lines.append("top")
+        elif r < 87:
+            # ... or update(cell) cell by cell, each right after its own write
+            for _ in range(rng.range(2, 5)):
+                lines.append("upd %s %s" % (coord(), data()))
         elif r < 88:
             lines.append("updall")
         elif r < 94:
